@@ -114,7 +114,7 @@ def rules(ctx: Ctx) -> None:
     if BE is None:
         raise AnalysisError("BaseExtractor not found")
     extractors = prog.direct_subclasses(BE)
-    ctx.floor("direct subclasses of BaseExtractor (the dispatch registry)", len(extractors), 9)
+    ctx.floor("direct subclasses of BaseExtractor (the dispatch registry)", len(extractors), 5)
 
     # ---- R01.1 ----------------------------------------------------------------------------
     lists: dict[str, list[str]] = {}
@@ -167,7 +167,7 @@ def rules(ctx: Ctx) -> None:
 
     # ---- R01.2 ----------------------------------------------------------------------------
     lits = type_literals(prog)
-    ctx.floor("distinct segment-type literals", len(lits), 45)
+    ctx.floor("distinct segment-type literals", len(lits), 34)
     for lit, sites in sorted(lits.items()):
         f, n = sites[0]
         ctx.ob("R01.2", f"literal-in-vocabulary:{lit}", lit in vocab, loc(f.mod, n),
@@ -239,7 +239,7 @@ def rules(ctx: Ctx) -> None:
 
     J = [c.id for c in cfg.nodes.values() if c.ast is not None and c.kind in ("for", "stmt", "cond") and is_join_traversal(c)]
     A = [c for c in cfg.nodes.values() if c.ast is not None and c.kind in ("stmt", "cond") and any(picks_from_item(k) for k in ast.walk(c.ast))]
-    ctx.floor("sites turning a FROM item into a dataset", len(A), 2)
+    ctx.floor("sites turning a FROM item into a dataset", len(A), 1)
     for a in A:
         # the innermost loop (other than a join traversal) that syntactically encloses the site: one iteration handles one FROM item
         encl = [anc for anc in prog.ancestors(a.ast) if isinstance(anc, ast.For)]
@@ -361,7 +361,7 @@ def rules(ctx: Ctx) -> None:
             # a pass over the branches: get_children on the very segment that was tested to be a set expression
             if any(p and t == f"is_set_expression({u(n.func.value)})" for t, p in facts):
                 passes.append((n, tuple(sorted(x for a in n.args for x in [prog.try_fold(a, ex.mod, ex)] if isinstance(x, str)))))
-    ctx.floor("passes over set-operation branches in SelectExtractor.extract", len(passes), 2)
+    ctx.floor("passes over set-operation branches in SelectExtractor.extract", len(passes), 1)
     kinds = {p[1] for p in passes}
     ctx.ob("R01.7", "set-branch-passes-agree", len(kinds) == 1, loc(ex.mod, passes[0][0]),
            f"the sub-query collection pass and the handling pass must visit the same branch types of a set expression; they use {sorted(kinds)}")
